@@ -477,6 +477,91 @@ def _extra():
                       "def seedCalls : List (String × String) := []\ndef randomCalls : List (String × String × Nat) := []\n"
                       "def coilOrderOps : List (String × String) := []\n")
         status["structureScans"] = f"skipped: {e}"
+    t5, s5 = _phase3_tables()
+    chunks.append(t5)
+    status.update(s5)
+    return "\n".join(chunks), status
+
+
+def norm_ctor_rows(repo: pathlib.Path):
+    """every construction of a batch-statistics layer in direct/nn: (Class, layer, form) with form 0 = running statistics
+    are tracked (the default), 1 = `track_running_stats=False` (batch statistics also in eval mode), 2 = not a literal"""
+    rows = []
+    for p in sorted((repo / "direct" / "nn").rglob("*.py")):
+        tree = parse_file(p)
+        for cls in [n for n in ast.walk(tree) if isinstance(n, ast.ClassDef)]:
+            for n in ast.walk(cls):
+                if isinstance(n, ast.Call):
+                    last = ast.unparse(n.func).split(".")[-1]
+                    if "BatchNorm" in last and last[0].isupper():
+                        kw = next((k.value for k in n.keywords if k.arg == "track_running_stats"), None)
+                        if kw is None and len(n.args) > 4:
+                            kw = n.args[4]
+                        form = 0 if kw is None else (0 if ast.unparse(kw) == "True" else 1 if ast.unparse(kw) == "False" else 2)
+                        mom = next((k.value for k in n.keywords if k.arg == "momentum"), None)
+                        if mom is not None and ast.unparse(mom) == "None" and form == 0:
+                            form = 0
+                        rows.append((cls.name, last, form))
+    return rows
+
+
+def _phase3_tables():
+    """per-function primitive tables, per-model function lists (runtime trace of the zoo), effect rows, norm-layer constructors"""
+    from . import c18_prims as CP
+
+    status, chunks = {}, []
+    traced, terr = None, None
+    try:
+        traced = CP.trace_models(REPO)
+        if not traced:
+            terr = "no zoo model could be evaluated"
+    except Exception as e:  # noqa: BLE001
+        terr = f"cannot trace the zoo: {type(e).__name__}: {str(e)[:120]}"
+    try:
+        T = CP.build_tables(REPO, traced)
+    except (Untranslatable, SyntaxError, OSError, ValueError) as e:
+        chunks.append(f"/-- SKIPPED ({str(e)[:160]}) -/\ndef primTable : List BatchSep.FuncRow := []\n"
+                      "def unresolvedPrims : List BatchSep.Prim := []\ndef modelFuncs : List BatchSep.ModelRow := []\n"
+                      "def effectRows : List BatchSep.EffRow := []\ndef normCtors : List (String × String × Nat) := []\n")
+        for k in ("primTable", "modelFuncs", "effectRows", "normCtors"):
+            status[k] = f"skipped: {str(e)[:160]}"
+        return "\n".join(chunks), status
+
+    def prim(r):
+        fn, fam, op, form, args, sink = r
+        return f"⟨{_s(fn)}, {fam}, {_s(op)}, {form}, {[int(a) for a in args]}, {sink}⟩"
+
+    names = T["functions"]
+    index = {q: i for i, q in enumerate(names)}
+    chunks.append("/-- every operation of a forward / reconstruction path of /repo/direct whose meaning depends on which axis is the\n"
+                  "batch, function by function (static scan of direct/nn + every function of /repo/direct a zoo model executes) -/\n"
+                  "def primTable : List BatchSep.FuncRow :=\n  [" +
+                  ",\n   ".join(f"⟨{_s(q)}, [" + ", ".join(prim(r) for r in T["prims"][q]) + "]⟩" for q in names) + "]\n")
+    status["primTable"] = "translated" + (f" ({len(T['unresolved'])} call sites with axis expressions the scanner cannot resolve: listed in unresolvedPrims)"
+                                          if T["unresolved"] else "")
+    chunks.append("/-- call sites whose axis / extent expression the scanner cannot resolve (not judged; the oracle covers them) -/\n"
+                  "def unresolvedPrims : List BatchSep.Prim :=\n  [" + ", ".join(prim(r) for r in T["unresolved"]) + "]\n")
+    if terr is None:
+        chunks.append("/-- zoo model -> indices (into primTable) of the functions of /repo/direct one evaluation of a batch of two executes\n"
+                      "(recorded with sys.setprofile on the real model) -/\n"
+                      "def modelFuncs : List BatchSep.ModelRow :=\n  [" +
+                      ",\n   ".join(f"({_s(e)}, {[index[q] for q in fs if q in index]})" for e, fs in T["models"].items()) + "]\n")
+        status["modelFuncs"] = "translated"
+    else:
+        chunks.append(f"/-- SKIPPED ({terr}) -/\ndef modelFuncs : List BatchSep.ModelRow := []\n")
+        status["modelFuncs"] = "skipped: " + terr
+    chunks.append("/-- every way a forward path could keep state between calls -/\n"
+                  "def effectRows : List BatchSep.EffRow :=\n  [" +
+                  ", ".join(f"⟨{_s(a)}, {k}, {_s(d.replace(chr(34), chr(39)).replace(chr(92), '/'))}⟩" for a, k, d in T["effects"]) + "]\n")
+    status["effectRows"] = "translated"
+    try:
+        nc = norm_ctor_rows(REPO)
+        chunks.append("/-- constructions of batch-statistics layers: (class, layer, 0 = running statistics tracked) -/\n"
+                      "def normCtors : List (String × String × Nat) :=\n  [" + ", ".join(f"({_s(a)}, {_s(b)}, {c})" for a, b, c in nc) + "]\n")
+        status["normCtors"] = "translated"
+    except (Untranslatable, SyntaxError) as e:
+        chunks.append(f"/-- SKIPPED ({e}) -/\ndef normCtors : List (String × String × Nat) := []\n")
+        status["normCtors"] = f"skipped: {e}"
     return "\n".join(chunks), status
 
 
